@@ -33,16 +33,21 @@ def main():
     ap.add_argument('--checks', default=None)
     ap.add_argument('--no-suite', action='store_true')
     ap.add_argument('--tier', default='quick')
+    ap.add_argument('--at', default=None, help='evaluate against this commit of /repo instead of its working tree')
     a = ap.parse_args()
     checks = (a.checks or a.prop).split(',')
     scratch = f'/scratch/seed.{a.name}.{os.getpid()}'
     clean, mut = scratch + '/clean', scratch + '/mut'
     os.makedirs(scratch, exist_ok=True)
     meta = {'name': a.name, 'breaks_property': a.prop, 'evaluated_at': time.strftime('%Y-%m-%d %H:%M:%S'),
-            'repo_head': sh('git -C /repo rev-parse --short HEAD')[1].strip()}
+            'repo_head': sh(f'git -C /repo rev-parse --short {a.at or "HEAD"}')[1].strip()}
     try:
         for d in (clean, mut):
-            sh(f'rsync -a --exclude .git --exclude __pycache__ --exclude docs /repo/ {d}/')
+            if a.at:
+                os.makedirs(d, exist_ok=True)
+                sh(f'git -C /repo archive {a.at} | tar -x -C {d}')
+            else:
+                sh(f'rsync -a --exclude .git --exclude __pycache__ --exclude docs /repo/ {d}/')
         rc, out = sh(f'patch -p1 --no-backup-if-mismatch < {a.src}/patch.diff', cwd=mut)
         meta['patch_applies'] = rc == 0
         if rc != 0:
@@ -85,6 +90,12 @@ def finish(a, meta):
     mp = os.path.join(dest, 'meta.json')
     if os.path.exists(mp):
         prev = json.load(open(mp))
+    if prev.get('demo_with_change') not in (0, None) and meta.get('patch_applies') and meta.get('demo_with_change') == 0:
+        # the change no longer breaks the property on the current tree (a later repair removed what it relied on):
+        # keep the record of the evaluation made when it did, and say so
+        prev['no_longer_manifests_at'] = meta['repo_head']
+        prev['checks_at_' + meta['repo_head']] = meta.get('checks')
+        meta = prev
     if 'needs_to_manifest' in prev:
         meta['needs_to_manifest'] = prev['needs_to_manifest']
     if 'suite_passes_with_change' not in meta and 'suite_passes_with_change' in prev:
